@@ -30,7 +30,7 @@ def average_cell_entropy(cellular_automaton):
     num_cols = cellular_automaton.shape[1]
     entropies = []
     for i in range(0, num_cols):
-        cell_states_over_time = ''.join([str(x) for x in cellular_automaton[:, i]])
+        cell_states_over_time = [str(x) for x in cellular_automaton[:, i]]
         entropy = shannon_entropy(cell_states_over_time)
         entropies.append(entropy)
     return np.mean(entropies)
@@ -95,7 +95,7 @@ def average_mutual_information(cellular_automaton, temporal_distance=1):
         raise ValueError("the temporal distance must be greater than 0 and less than the number of time steps")
     mutual_informations = []
     for i in range(0, num_cols):
-        cell_states_over_time = ''.join([str(x) for x in cellular_automaton[:, i]])
+        cell_states_over_time = [str(x) for x in cellular_automaton[:, i]]
         mi = mutual_information(cell_states_over_time[:-temporal_distance], cell_states_over_time[temporal_distance:])
         mutual_informations.append(mi)
     return np.mean(mutual_informations)
